@@ -15,8 +15,10 @@
 package main
 
 import (
+	"bytes"
 	"fmt"
 	"io"
+	"sort"
 	"strings"
 
 	"github.com/openconfig/goyang/pkg/indent"
@@ -47,8 +49,17 @@ func doTypes(w io.Writer, entries []*yang.Entry) {
 		types.AddEntry(e)
 	}
 
+	// types is a map: render every type first and print the renderings
+	// in sorted order so that the output is reproducible.
+	var out []string
 	for t := range types {
-		printType(w, t, typesVerbose)
+		var b bytes.Buffer
+		printType(&b, t, typesVerbose)
+		out = append(out, b.String())
+	}
+	sort.Strings(out)
+	for _, s := range out {
+		io.WriteString(w, s)
 	}
 	if typesDebug {
 		for _, e := range entries {
